@@ -97,3 +97,74 @@ def divguard(rep: Report, repo: Repo, kernels: Dict[str, Kernel], names: Optiona
                    ("" if d.ok else f"{desc}: ") + why, d.stmt, line=d.line, kind=d.klass, flavour=d.flavour)
     rep.analysed.setdefault("divisions_classified", {}).update(counts)
     return out
+
+
+# ------------------------------------------------------------------------------- R-BIND
+
+
+def r_bind(rep: Report, site, k: Kernel, afile="hdc/algo/accessors.py", rule="R-BIND"):
+    """Arguments bind to the kernel's parameters in order and by name; core-dim ranks match the
+    gufunc layout; number of output_core_dims == number of outputs; dask mode is `parallelized`
+    without allow_rechunk (a chunked core dimension is then refused by xarray)."""
+    from .sites import const_list
+    where = site.where()
+    args = [ast.unparse(a) for a in site.args]
+    params = k.inputs
+    n_pos = len(site.args)
+    kw_names = list(site.kwargs)
+    tag = f"{site.mode}:{k.name}"
+
+    def ob(role, ok, detail="", stmt=None):
+        rep.ob(rule, afile, where, f"{tag}: {role}", ok, detail, stmt if stmt is not None else f"{tag} {role}", line=site.line)
+
+    # arity
+    required = [p for i, p in enumerate(params) if i >= n_pos]
+    defaults = len(k.node.args.defaults)
+    n_required = len(params) - defaults if k.kind != "guvectorize" else len(params)
+    ok_arity = n_pos <= len(params) and all(kw in params for kw in kw_names) and \
+        (n_pos + len([kw for kw in kw_names if kw in params[n_pos:]]) >= n_required)
+    ob("argument count matches the kernel's inputs", ok_arity,
+       f"{n_pos} positional + kwargs {kw_names} for inputs {params}")
+    # by-name position
+    for i, a in enumerate(site.args):
+        if isinstance(a, ast.Name) and a.id in params and params.index(a.id) != i:
+            ob(f"argument `{a.id}` sits in the position of the parameter of the same name", False,
+               f"`{a.id}` is passed as argument #{i} but the kernel's `{a.id}` is parameter #{params.index(a.id)} (inputs {params})",
+               f"{tag} arg {i} = {a.id}")
+    named = [(i, a.id) for i, a in enumerate(site.args) if isinstance(a, ast.Name) and a.id in params]
+    ob("same-named arguments are in their parameter's position", all(params.index(n) == i for i, n in named),
+       f"positional names {args} vs parameters {params}", f"{tag} positional order")
+    for kw, val in site.kwargs.items():
+        if isinstance(val, ast.Name) and val.id in params and val.id != kw and not (kw, val.id) in ALLOWED_KW_RENAMES:
+            ob(f"keyword `{kw}` is not fed from the variable of another parameter", False,
+               f"{kw}={val.id}", f"{tag} {kw}={val.id}")
+    if site.mode != "apply_ufunc":
+        return
+    icd = const_list(site.opts.get("input_core_dims"))
+    ocd = const_list(site.opts.get("output_core_dims"))
+    ok_icd = isinstance(icd, list) and len(icd) == n_pos
+    ob("one input_core_dims entry per argument", ok_icd, f"input_core_dims = {icd} for {n_pos} arguments")
+    if k.kind == "guvectorize" and ok_icd:
+        ranks = [len(d) if isinstance(d, list) else None for d in icd]
+        want = [len(d) for d in k.in_dims]
+        ob("core-dimension ranks match the gufunc layout", ranks == want[:n_pos],
+           f"input_core_dims ranks {ranks} vs layout `{k.layout}` ranks {want}")
+        # arguments sharing a layout symbol must share the dimension name only if the accessor names them equal (informational)
+        n_out = len(k.out_dims)
+        if ocd is None:
+            ob("output_core_dims default (one scalar output) matches the layout", n_out == 1 and k.out_dims[0] == (),
+               f"layout `{k.layout}` has outputs {k.out_dims} but the site declares none")
+        else:
+            oranks = [len(d) if isinstance(d, list) else None for d in ocd]
+            ob("number and ranks of output_core_dims match the layout", len(ocd) == n_out and oranks == [len(d) for d in k.out_dims],
+               f"output_core_dims = {ocd} vs layout outputs {k.out_dims}")
+    dask = site.opts.get("dask")
+    ob("dask mode is 'parallelized'", isinstance(dask, ast.Constant) and dask.value == "parallelized",
+       f"dask = {ast.unparse(dask) if dask is not None else None}")
+    dgk = site.opts.get("dask_gufunc_kwargs")
+    allow = dgk is not None and "allow_rechunk" in ast.unparse(dgk)
+    ob("a chunked core dimension is refused (no allow_rechunk)", not allow and "allow_rechunk" not in site.opts,
+       "allow_rechunk lets dask compute the kernel per chunk of the core dimension")
+
+
+ALLOWED_KW_RENAMES = {("cal_start", "calstart_ix"), ("cal_stop", "calstop_ix"), ("out_dtype", "dtype")}
